@@ -1180,14 +1180,17 @@ pub(crate) struct HandshakeRequest {
 #[cfg(any(feature="tokio-websockets", feature="threaded-websockets"))]
 impl IntoClientRequest for HandshakeRequest {
     fn into_client_request(self) -> tungstenite::Result<tungstenite::handshake::client::Request> {
-        let final_request = self.handshake_builder.body(()).unwrap();
+        // a request builder carries a deferred error (e.g. an invalid header set by a handshake transform)
+        let final_request = self.handshake_builder.body(())?;
         Ok(tungstenite::handshake::client::Request::from(final_request))
     }
 }
 
 #[cfg(any(feature="tokio-websockets", feature="threaded-websockets"))]
 pub(crate) fn create_default_websocket_handshake_request(uri: String) -> GneissResult<http::request::Builder> {
-    let uri = Uri::from_str(uri.as_str()).unwrap();
+    // the endpoint is whatever string the client was built with: not every one of them is a URI authority
+    let uri = Uri::from_str(uri.as_str()).map_err(GneissError::new_connection_establishment_failure)?;
+    let host = uri.host().ok_or_else(|| GneissError::new_connection_establishment_failure("websocket endpoint has no host"))?.to_string();
 
     Ok(http::Request::builder()
         .uri(uri.to_string())
@@ -1197,7 +1200,7 @@ pub(crate) fn create_default_websocket_handshake_request(uri: String) -> GneissR
         .header("Connection", "Upgrade")
         .header("Upgrade", "websocket")
         .header("Sec-WebSocket-Version", 13)
-        .header("Host", uri.host().unwrap()))
+        .header("Host", host))
 }
 
 /// A structure that holds configuration related to how an asynchronous client should interact
